@@ -127,7 +127,7 @@ def runReuse (c : Case) : String :=
     | _, _ => none
   match go (c.getD "src" "-"), go (c.getD "src2" "-") with
   | some (t, s1), some (b, s2) =>
-    s!"res {c.id} built=0 b1={b} t1={t} t2={t} t3={t} conc=1 subs1={s1 * 7} subs2={s2}"
+    s!"res {c.id} built=0 b1={b} t1={t} t2={t} t3={t} conc=1 t4={b} subs1={s1 * 7 + s2} subs2={s2}"
   | _, _ => s!"res {c.id} unsupported"
 
 /-- `kind=reusemulti` (C12): an operator value that captures other observables, applied to several
